@@ -26,6 +26,9 @@ pub fn check(tier: Tier) -> Check {
     for r in [1u64, 2] {
         parts.push(Part::new("C10/quota", json!({"depth": tier.pick(5, 6), "r": r, "flavour": 2}), 0, tier.pick(25, 400)));
     }
+    // inbound QoS 1 / QoS 2 deliveries (with their PUBREL) between the client's own publishes
+    parts.push(Part::new("C10/quota", json!({"depth": tier.pick(5, 6), "r": 1, "inbound": true}), 0, tier.pick(25, 400)));
+    parts.push(Part::new("C10/quota", json!({"depth": tier.pick(4, 5), "r": 2, "inbound": true}), 1, tier.pick(25, 400)));
     // re-authentication (authorize() with reason 0x19, answered by AUTH) between the CONNACK and run()
     parts.push(Part::new("C10/quota", json!({"depth": tier.pick(4, 6), "r": 1, "flavour": 10}), 0, tier.pick(25, 400)));
     // a Maximum Packet Size as well: a locally refused oversized publish must not take a slot
@@ -331,6 +334,21 @@ pub fn scenario(name: &str, params: &Value) -> Scenario {
                 e.extend(specs.iter().cloned().map(Ev::Start));
             }
             e.extend(broker_acks_ext(s, true, false, true));
+            if s.params["inbound"].as_bool().unwrap_or(false) {
+                // the broker's own deliveries (QoS 1, and a QoS 2 exchange up to its PUBREL / PUBCOMP) use
+                // the same identifier values in the other direction: they are no business of the send quota
+                let pid = 1u16;
+                let open = s.m.unreleased.contains(&pid)
+                    || s.m.inbox.iter().any(|p| matches!(p, SPacket::Publish { qos: 2, .. }));
+                if open {
+                    if !s.m.inbox.iter().any(|p| matches!(p, SPacket::Ack { ty: 6, .. })) {
+                        e.push(Ev::Deliver(pubrel_in(pid)));
+                    }
+                } else {
+                    e.push(Ev::Deliver(inbound(2, false, pid, &[], "in2")));
+                }
+                e.push(Ev::Deliver(inbound(1, false, 2, &[], "in1")));
+            }
             e
         };
         drive(&mut sys, chz, depth, &devs, &evs);
